@@ -12,6 +12,7 @@ import (
 	"fmt"
 
 	"github.com/MinterTeam/minter-go-node/coreV2/state"
+	"github.com/MinterTeam/minter-go-node/coreV2/state/swap"
 	"github.com/MinterTeam/minter-go-node/coreV2/transaction"
 	"math/big"
 	"sort"
@@ -19,6 +20,7 @@ import (
 	"time"
 
 	"github.com/MinterTeam/minter-go-node/coreV2/types"
+	"github.com/MinterTeam/minter-go-node/formula"
 )
 
 type RecBlock struct {
@@ -144,6 +146,9 @@ type HistResult struct {
 	C06Agree  int
 	C05       []MonitorFailure
 	C03       []MonitorFailure
+	C27       []MonitorFailure
+	C27Checked int
+	C27Both   int
 	C03Checked int
 	C05Checked int
 	Exports   []*types.AppState // only when keepExports
@@ -240,6 +245,7 @@ type genOpts struct {
 	TimeWalk    bool
 	CheckDeliver bool // run every transaction in check mode on the in-flight state right before delivering it (C06)
 	FailFrame    bool // C03: a rejected transaction changes nothing but one account's balance (the fee payer's)
+	FeeRoute     bool // C27: a commission paid in a coin with a reserve AND a pool takes the cheaper route
 	CandAuth     bool // C05: candidate settings change only by the owner (on/off also by the control address)
 }
 
@@ -249,6 +255,7 @@ func genHistory(seed uint64, spec *GenesisSpec, g *genOpts) (*History, *HistResu
 	defer n.Cleanup()
 	w := newWorld(n, r)
 	w.Weights = g.Weights
+	w.GasFromHeld = g.FeeRoute
 	h := &History{Spec: spec}
 	res := &HistResult{}
 	var prev *Holdings
@@ -318,6 +325,66 @@ func genHistory(seed uint64, spec *GenesisSpec, g *genOpts) (*History, *HistResu
 					res.C06 = append(res.C06, MonitorFailure{What: fmt.Sprintf("C06: %s transaction at height %d: check mode on the same state returned code %d, DeliverTx %d (%s) raw=%x", kind, hh, chkCode, tr.Code, tr.Log, raw), Key: "c06-check-deliver"})
 				} else {
 					res.C06Agree++
+				}
+			}
+		}
+		if g.FeeRoute {
+			var vol, rsv *big.Int
+			var crr uint32
+			var hasRes bool
+			var poolSnap swap.EditableChecker
+			var ready bool
+			opts.PreTx = func(i int, raw []byte) {
+				ready, poolSnap = false, nil
+				if i >= len(gens) || gens[i].Gas == 0 {
+					return
+				}
+				gas := gens[i].Gas
+				n.guard("snapshot", func() {
+					cs := state.NewCheckState(n.App.VerifStateDeliver())
+					cn := cs.Coins().GetCoin(gas)
+					if cn == nil {
+						return
+					}
+					vol, rsv, crr, hasRes = cn.Volume(), cn.Reserve(), cn.Crr(), cn.BaseOrHasReserve()
+					if sw := cs.Swap().GetSwapper(gas, types.GetBaseCoinID()); sw.Exists() {
+						// a private copy of the pool with its order book, as the check phase of the transactions makes it
+						poolSnap = sw.AddLastSwapStepWithOrders(big.NewInt(0), big.NewInt(0), false)
+					}
+					ready = true
+				})
+			}
+			opts.PostTx = func(i int, raw []byte, tr TxResult) {
+				if !ready || tr.Code != 0 || i >= len(gens) {
+					return
+				}
+				base := bi(tr.Tags["tx.commission_in_base_coin"])
+				if base.Sign() < 1 {
+					return
+				}
+				res.C27Checked++
+				var resQ, poolQ *big.Int
+				if hasRes && new(big.Int).Sub(rsv, base).Cmp(pip(10000)) >= 0 {
+					resQ = formula.CalculateSaleAmount(vol, rsv, crr, base)
+				}
+				if poolSnap != nil {
+					n.guard("quote", func() {
+						if q, _ := poolSnap.CalculateSellForBuyWithOrders(base); q != nil && q.Sign() == 1 {
+							poolQ = q
+						}
+					})
+				}
+				if resQ == nil || poolQ == nil {
+					return
+				}
+				res.C27Both++
+				want, route := poolQ, "pool"
+				if resQ.Cmp(poolQ) < 0 {
+					want, route = resQ, "bancor"
+				}
+				if tr.Tags["tx.commission_amount"] != want.String() || tr.Tags["tx.commission_conversion"] != route {
+					res.C27 = append(res.C27, MonitorFailure{What: fmt.Sprintf("C27: %s transaction at height %d pays %s base coin in coin %d, which has a reserve (cost %s) and a pool (cost %s): charged %s by route %q, the cheaper route is %q with %s raw=%x",
+						gens[i].Kind, n.Height+1, base, gens[i].Gas, resQ, poolQ, tr.Tags["tx.commission_amount"], tr.Tags["tx.commission_conversion"], route, want, raw), Key: "c27-route-not-cheaper"})
 				}
 			}
 		}
